@@ -175,6 +175,9 @@ def accept_rule(ctx, F):
 
 def run(ctx):
     _run(ctx)
+    ctx.delegate("C01", ["C01.ring", "C01.patch"], "C03.rings",
+                 "rings and patches are decoded as stored: vertices in stored order whatever the winding, the role from the winding "
+                 "alone, ring i from part i, each patch kind as its own variant", floor=8)
     accept_rule(ctx, ctx.facts("default"))
 
 
